@@ -38,6 +38,7 @@ SEEDS = {
  'C08c': ('C08', 'backmp11 on_explicit_entry: untargeted regions restart at their initial states instead of asking the history policy ("UML: regions not targeted are entered by default")', 'two-region submachine with always_shallow_history / shallow_history<E>, re-entered through direct<> / entry_pt<> after the untargeted region had moved'),
  'C13c': ('C13', 'back favor_compile_time init_event_base_case: rows of the machine\'s own internal table are added with push_back instead of push_front', 'fsm-level internal_transition_table with two or more rows for one event under back favor_compile_time: guards tried first-declared-first'),
  'C16c': ('C16', 'back serialize: the front-end (base class) is archived only when the machine is not contained ("serialise the front-end only once")', 'a submachine whose front-end declares do_serialize and holds non-default data at the save point'),
+ 'C18c': ('C18', 'back dispatch_table make_chain_row_from_map_entry: erase_first_rows<..., number_frows> instead of number_frows-1 (a type computation: every forwarding row for the event is removed)', 'active submachine whose table has two or more trigger types matching one event (exact + base class + Kleene): the event is never forwarded'),
  'C13b': ('C13', 'backmp11 favor_runtime_speed needs_forward_transition: no longer looks into sub-submachines (a type computation)', 'three-level hierarchy, event only the innermost machine has rows for, middle machine does not mention it'),
  'C14a': ('C14', 'puml parse_row_right: action length clamped to 0 when the guard is written before the action list', 'a transition line of the form  A -> B : ev [guard] / action'),
  'C14c': ('C14', 'functor Internal<> rows with an action always answer HANDLED_TRUE (instead of get_functor_return_value<Action>)', 'state-local internal row whose action defers (Defer or a deferring sequence): answers TRUE, the back-end re-dispatches the deferred event at once'),
